@@ -329,12 +329,18 @@ func removeIncludedTaxes(doc billable) error {
 	// had the tax removed are presented with the currency's precision after
 	// the first calculation, which may alter the result of the second one, so
 	// check again that the amount to pay is the one we started with.
-	for i := 0; i < 2; i++ {
+	for i := 0; i < 3; i++ {
 		t := doc.getTotals()
 		if totalWithTax.Equals(t.Payable) {
 			break
 		}
-		rnd := totalWithTax.Subtract(t.TotalWithTax)
+		// adjust by what is still missing from the amount to pay: working
+		// from the presented total with tax could be a unit out when the
+		// precise total sits exactly on a half unit.
+		rnd := totalWithTax.Subtract(t.Payable)
+		if t.Rounding != nil {
+			rnd = rnd.Add(*t.Rounding)
+		}
 		t.Rounding = nil
 		if !rnd.IsZero() {
 			t.Rounding = &rnd
